@@ -23,7 +23,9 @@ def project(c, r):
 def gen(ctx):
     rng = ctx.rng
     for _ in range(40000 if ctx.thorough else 3000):
-        yield Case("RUN", R.gen_case(rng, n=rng.randrange(3, 21), adversarial=0.0, faults=0.0, stop=0.0), tags=("getfield",))
+        # (a quarter of the histories contain hand-written measurements: count word over- or under-announcing the values carried,
+        # declared length longer than what arrived - a too-short report must stay too short)
+        yield Case("RUN", R.gen_case(rng, n=rng.randrange(3, 21), adversarial=rng.choice([0.0, 0.0, 0.0, 0.3]), faults=0.0, stop=0.0), tags=("getfield",))
 
 
 def classify(c, r):
